@@ -213,6 +213,97 @@ Proof.
   constructor; [|constructor]. cbn. eapply guard_read_inside; eassumption.
 Qed.
 
+(* T1, exact form, WITHOUT the scope hypothesis: whatever passes the guard, the directory
+   entry that is acted on lies inside the playlists directory, OR it is a symbolic link
+   (wherever it is placed) whose resolved target lies inside -- nothing else can be touched.
+   The second alternative is exactly the scope note. *)
+Lemma guard_entry_exact fs base dirp b d f' bb :
+  walk false fs FUEL [] dirp = Some (d, S f') ->
+  resolve fs base = Ok bb ->
+  m3u_guard fs base (dirp ++ [b]) = Ok true ->
+  is_dot b = false ->
+  is_prefix bb d = true \/
+  (is_link_at fs d b = true /\
+   exists r, resolve fs (dirp ++ [b]) = Ok r /\ is_prefix bb (removelast r) = true).
+Proof.
+  intros W B G Hd. destruct (is_link_at fs d b) eqn:L.
+  - right. split; [reflexivity|].
+    destruct (guard_true fs base _ bb B G) as (r & R & _ & _). exists r. split; [exact R|].
+    eapply guard_read_inside; eassumption.
+  - left. eapply guard_entry_inside; try eassumption. intros X. congruence.
+Qed.
+
+(* the same for what delete / save / save-with-rename touch: all of it is inside, or the
+   named entry is a symbolic link whose target is inside *)
+Definition link_to_inside (fs : node) (bb dirp : path) (b : name) (d : path) : Prop :=
+  is_link_at fs d b = true /\
+  exists r, resolve fs (dirp ++ [b]) = Ok r /\ is_prefix bb (removelast r) = true.
+
+Lemma acts_guard_ok fs base p k l :
+  with_guard m3u_guard fs base p k = Acts l -> m3u_guard fs base p = Ok true.
+Proof.
+  unfold with_guard. destruct (m3u_guard fs base p) as [[|]| |]; try discriminate. reflexivity.
+Qed.
+
+Lemma m3u_ops_exact_lemma fs base dirp b d f' bb :
+  walk false fs FUEL [] dirp = Some (d, S f') -> resolve fs base = Ok bb -> is_dot b = false ->
+  (forall l, m3u_delete fs base (dirp ++ [b]) = Acts l ->
+     Forall (fun t => touch_inside bb t = true) l \/ link_to_inside fs bb dirp b d) /\
+  (forall l, m3u_save fs base (dirp ++ [b]) = Acts l ->
+     Forall (fun t => touch_inside bb t = true) l \/ link_to_inside fs bb dirp b d) /\
+  (forall newname l, is_dot newname = false -> m3u_rename fs base (dirp ++ [b]) newname = Acts l ->
+     Forall (fun t => touch_inside bb t = true) l \/ link_to_inside fs bb dirp b d).
+Proof.
+  intros W B Hd.
+  assert (K : forall k l, with_guard m3u_guard fs base (dirp ++ [b]) k = Acts l ->
+              is_prefix bb d = true \/ link_to_inside fs bb dirp b d).
+  { intros k l H. apply acts_guard_ok in H. apply (guard_entry_exact fs base dirp b d f' bb W B H Hd). }
+  split; [|split].
+  - intros l H. destruct (K _ _ H) as [I|X]; [left|right; exact X].
+    apply (delete_confined_sec fs base dirp b d f' bb W B Hd (fun _ => I) l H).
+  - intros l H. destruct (K _ _ H) as [I|X]; [left|right; exact X].
+    apply (save_confined_sec fs base dirp b d f' bb W B Hd (fun _ => I) l H).
+  - intros newname l Hn H. destruct (K _ _ H) as [I|X]; [left|right; exact X].
+    apply (rename_confined_sec fs base dirp b d f' bb W B Hd (fun _ => I) newname l Hn H).
+Qed.
+
+(* create(name): the new file name is ONE component below the playlists directory, so the
+   scope condition holds by itself: for every tree and every name, create touches only
+   entries of the resolved playlists directory (unconditionally). *)
+Lemma create_confined_lemma fs base n bb f' l :
+  walk false fs FUEL [] base = Some (bb, S f') -> is_dot n = false ->
+  m3u_create fs base n = Acts l -> Forall (fun t => touch_inside bb t = true) l.
+Proof.
+  intros W Hd H.
+  assert (B : resolve fs base = Ok bb).
+  { unfold m3u_create, m3u_create_with in H.
+    destruct (m3u_guard fs base (base ++ [n])) as [[|]|[]|] eqn:G; try discriminate.
+    unfold m3u_guard in G. destruct (resolve fs (base ++ [n])) as [r| |]; try discriminate.
+    cbn [rbind] in G. destruct (resolve fs base) as [b0| |] eqn:RB; try discriminate.
+    rewrite (resolve_parent fs base bb _ b0 W RB). reflexivity. }
+  assert (S1 : m3u_save fs base (base ++ [n]) = Acts l).
+  { unfold m3u_create, m3u_create_with in H. unfold m3u_save, m3u_save_with, with_guard.
+    destruct (m3u_guard fs base (base ++ [n])) as [[|]|[]|]; try discriminate.
+    destruct (resolve fs (parent (base ++ [n]))) as [d0|[]|]; try discriminate.
+    cbn [rbind]. exact H. }
+  apply (save_confined_sec fs base base n bb f' bb W B Hd (fun _ => is_prefix_refl bb) l S1).
+Qed.
+
+(* as_list(): only names of entries of the resolved playlists directory, each a regular
+   file (after following links) with a playlist extension *)
+Lemma as_list_names_lemma fs base bb names n :
+  resolve fs base = Ok bb -> m3u_as_list_names fs base = Ok names -> In n names ->
+  exists x, In (n, x) (entries_at fs bb) /\ mem_str (suffix n) [M3U; M3U8] = true /\
+            exists r, resolve fs (bb ++ [n]) = Ok r /\ is_file fs r = true.
+Proof.
+  intros B H I. unfold m3u_as_list_names in H. rewrite B in H. cbn [rbind] in H. injection H as <-.
+  apply in_map_iff in I. destruct I as ([n' x] & E & F). cbn in E. subst n'.
+  apply filter_In in F. destruct F as [F L]. unfold listed_entry in L. cbn [fst] in L.
+  apply andb_true_iff in L. destruct L as [L1 L2].
+  exists x. split; [exact F|]. split; [exact L1|].
+  destruct (resolve fs (bb ++ [n])) as [r| |]; try discriminate. exists r. auto.
+Qed.
+
 (* the guard refuses the playlists directory itself (commit recorded in known_findings);
    the guard before the fix accepted it and the temporary file went to the parent *)
 Lemma guard_refuses_base fs base bb p :
